@@ -11,7 +11,6 @@ import (
 	"encoding/json"
 	"fmt"
 	"reflect"
-	"strings"
 
 	digest "github.com/opencontainers/go-digest"
 	"pgregory.net/rapid"
@@ -49,9 +48,9 @@ type Op struct {
 	Key  string `json:"key,omitempty"`
 	Val  string `json:"val,omitempty"`
 	// descriptor argument (config, subject)
-	Base  string `json:"base,omitempty"` // current | fresh | nil | zero   (lists: current | fresh | nil | empty)
-	Fresh []XDesc `json:"fresh,omitempty"`
-	Edits []Edit `json:"edits,omitempty"`
+	Base  string     `json:"base,omitempty"` // current | fresh | nil | zero   (lists: current | fresh | nil | empty)
+	Fresh []XDesc    `json:"fresh,omitempty"`
+	Edits []Edit     `json:"edits,omitempty"`
 	Steps []ListStep `json:"steps,omitempty"`
 	// SetOrig
 	OrigFrom   string `json:"orig_from,omitempty"`   // current | raw | nil | string
@@ -679,6 +678,9 @@ func checkB(c CaseB, ev *evid.Collector) []*evid.Violation {
 	tn := typeName(cur.MT)
 	if cur.IsSet {
 		vs = append(vs, equations(cur, "build-"+c.Build+":"+tn, false, ev)...)
+		if a, ok := digestAlg(cur.Digest); ok && c.Algo == "prefer512" && a != "sha512" {
+			vs = append(vs, evid.V("construction-ignores-preferred-algorithm:build-"+c.Build+":"+tn, "a sha512 descriptor was preferred (DigestAlgoPrefer) and no digest was supplied, the manifest reports %s", cur.Digest))
+		}
 		if blocking(vs) {
 			return vs
 		}
@@ -732,5 +734,3 @@ func checkB(c CaseB, ev *evid.Collector) []*evid.Violation {
 	}
 	return vs
 }
-
-var _ = strings.Contains
